@@ -405,7 +405,7 @@ func (g *Gen) motifEvict() int {
 	}
 	// a key no pending transaction has written: the peer's transaction must cite the confirmed version
 	var free []string
-	for _, k := range g.e.w.Keys {
+	for _, k := range poolKeys { // (not the keys timer tasks write: the peer's block carries the timer transaction of its height)
 		if g.e.kvStr(g.e.w.P, k) == g.e.kvStr(g.e.w.R, k) {
 			free = append(free, k)
 		}
